@@ -155,6 +155,11 @@ func c12BuildQuery(r *gen.R, name string, qtype, id uint16) (wire []byte, optDes
 		o := &dns.OPT{Hdr: dns.RR_Header{Name: ".", Rrtype: dns.TypeOPT}}
 		o.SetUDPSize(uint16(r.Range(512, 4096)))
 		var parts []string
+		if r.P(0.3) { // sizes below 512 are legal (treated as 512); 0 is the smallest of them
+			sz := gen.Pick(r, []uint16{0, 0, 1, 100, 511, 65535})
+			o.SetUDPSize(sz)
+			parts = append(parts, fmt.Sprintf("size%d", sz))
+		}
 		if r.P(0.4) {
 			o.Option = append(o.Option, &dns.EDNS0_COOKIE{Code: dns.EDNS0COOKIE, Cookie: hex.EncodeToString(r.Bytes(8))})
 			parts = append(parts, "cookie")
@@ -221,9 +226,12 @@ func c12Run(c *Ctx, ecs bool) {
 		listener := allListeners[i%len(allListeners)]
 		up := gen.Pick(r, ups)
 		upOpt := r.P(0.5)
-		first := fmt.Sprintf("ok-n2-ttl300-p%dx%d", i, r.Intn(1<<20))
+		// n2: no additional records, n4: one, n5: two - the upstream puts its OPT record last, first
+		// or between them (fakeup.AddOpt)
+		nrec := gen.Pick(r, []int{2, 4, 5, 5})
+		first := fmt.Sprintf("ok-n%d-ttl300-p%dx%d", nrec, i, r.Intn(1<<20))
 		if upOpt {
-			first = "ok-opt-n2-ttl300-p" + fmt.Sprintf("%dx%d", i, r.Intn(1<<20))
+			first = fmt.Sprintf("ok-opt-n%d-ttl300-p%dx%d", nrec, i, r.Intn(1<<20))
 		}
 		name := first + "." + up + ".test."
 		var addr netip.Addr // invalid = unknown
